@@ -1239,15 +1239,19 @@ func opsEqual(a, b []Op) bool {
 
 var symCheck = os.Getenv("XLATE_SYMCHECK") != ""
 
+// methods on which the shape recognisers and the symbolic executor are BOTH complete and disagree (always computed; a
+// non-empty list means one of the two translators misreads the code: reported as a fact of every property)
+var symDiffs = []string{}
+
 // withSymex: the recognisers' op list stands when it is complete; when it contains an unrecognised statement the
 // symbolic executor's answer is taken if IT recognises the whole body.  (XLATE_SYMCHECK=1 runs both on every method and
 // reports where they differ: they must agree wherever both are complete.)
 func (c *ctx) withSymex(sc *Schema, t *Type, fd *ast.FuncDecl, write bool, legacy []Op) []Op {
 	dir := map[bool]string{true: "Encode", false: "Decode"}[write]
-	if !hasOpaque(legacy) && !symCheck {
-		return legacy
-	}
 	ops, why := c.symOps(fd, write)
+	if why == "" && !hasOpaque(legacy) && !opsEqual(ops, legacy) {
+		symDiffs = append(symDiffs, fmt.Sprintf("%s.%s.%s", t.Pkg, t.Name, dir))
+	}
 	if symCheck {
 		switch {
 		case why != "" && !hasOpaque(legacy):
@@ -1608,11 +1612,16 @@ func main() {
 			} else {
 				why += "; symbolic execution gave up: " + swhy
 			}
-		} else if fr != nil && symCheck {
+		} else if fr != nil {
 			if sf, swhy := c.symFrame(enc); sf == nil {
-				fmt.Fprintf(os.Stderr, "symcheck %s.%s.Encode (frame): executor gave up (%s)\n", t.Pkg, t.Name, swhy)
+				if symCheck {
+					fmt.Fprintf(os.Stderr, "symcheck %s.%s.Encode (frame): executor gave up (%s)\n", t.Pkg, t.Name, swhy)
+				}
 			} else if fmt.Sprint(*sf) != fmt.Sprint(*fr) {
-				fmt.Fprintf(os.Stderr, "symcheck %s.%s.Encode (frame): DIFFERENT\n  exec: %v\n  reco: %v\n", t.Pkg, t.Name, *sf, *fr)
+				symDiffs = append(symDiffs, fmt.Sprintf("%s.%s.Encode (frame)", t.Pkg, t.Name))
+				if symCheck {
+					fmt.Fprintf(os.Stderr, "symcheck %s.%s.Encode (frame): DIFFERENT\n  exec: %v\n  reco: %v\n", t.Pkg, t.Name, *sf, *fr)
+				}
 			}
 		}
 		if fr != nil {
@@ -1664,6 +1673,7 @@ func main() {
 	}
 	if *outFacts != "" || *outLock != "" {
 		fx := extractFacts(*root)
+		fx.SymDiffs = symDiffs
 		if *outFacts != "" {
 			b, _ := json.MarshalIndent(fx, "", " ")
 			os.WriteFile(*outFacts, b, 0o644)
